@@ -372,9 +372,9 @@ fn run_h(opts: &Opts, body: &str, tmp: &str, id: &str, show: bool) -> (String, S
         a.push("-s".into());
         a.push(path.clone());
         let args = Arc::new(Args::parse_from(a));
-        let planes = Planes {
-            aircrafts: table.clone(),
-        };
+        // through the constructor (not a struct literal), so that a refactoring which adds private state to Planes still builds
+        let mut planes = Planes::new();
+        planes.aircrafts = table.clone();
         let t0 = std::time::Instant::now();
         let h = spawn_reader_thread(args, planes);
         match h.join() {
@@ -492,6 +492,47 @@ fn run_m(opts: &Opts, body: &str) -> (String, String) {
     }
 }
 
+/// kind V: exhaustive sweep of the TC19 velocity decoder.  body = "st:sew:sns:lo:hi:path": for every east-west magnitude
+/// field in lo..hi and every north-south field 0..1023 a DF17 TC19 frame (subtype st, the given sign bits) is decoded through
+/// DF::from_message + Plane::from_downlink (path d) or Plane::from_message (path m); output "trk.gs" per pair ('-' = none)
+fn run_v(body: &str) -> (String, String) {
+    let p: Vec<&str> = body.split(':').collect();
+    let st: u64 = p[0].parse().unwrap();
+    let sew: u64 = p[1].parse().unwrap();
+    let sns: u64 = p[2].parse().unwrap();
+    let lo: u64 = p[3].parse().unwrap();
+    let hi: u64 = p[4].parse().unwrap();
+    let path_m = p.get(5).map(|x| *x == "m").unwrap_or(false);
+    let r = std::panic::catch_unwind(move || {
+        let mut o = String::with_capacity(((hi - lo) * 1024 * 9) as usize);
+        for vew in lo..hi {
+            for vns in 0..1024u64 {
+                // ME: TC(5)=19 ST(3) IC(1) IFR(1) NUC(3) | Dew(1) Vew(10) Dns(1) Vns(10) | VrSrc(1) Svr(1) VR(9) | res(2) SDif(1) dAlt(7)
+                let me: u64 = (19 << 51) | (st << 48) | (sew << 42) | (vew << 32) | (sns << 31) | (vns << 21) | (1 << 10);
+                let frame: u128 = ((17u128 << 3 | 5) << 104) | (0x4840D6u128 << 80) | ((me as u128) << 24);
+                let m: Vec<u32> = (0..28).map(|i| ((frame >> (108 - 4 * i)) & 0xF) as u32).collect();
+                let plane = if path_m {
+                    Plane::from_message(&m, 17, 0x4840D6, false)
+                } else {
+                    match DF::from_message(&m) {
+                        Ok(dl) => Plane::from_downlink(&dl, 0x4840D6),
+                        Err(_) => {
+                            o.push_str("E ");
+                            continue;
+                        }
+                    }
+                };
+                write!(o, "{}.{} ", oq(&plane.track), oq(&plane.grspeed)).unwrap();
+            }
+        }
+        o
+    });
+    match r {
+        Ok(o) => ("ok".into(), o),
+        Err(_) => ("panic".into(), String::new()),
+    }
+}
+
 fn run_k(body: &str) -> (String, String) {
     let p: Vec<u32> = body.split(':').map(|x| x.parse().unwrap()).collect();
     let (start, count, step) = (p[0], p[1], p[2]);
@@ -535,6 +576,7 @@ fn main() {
             "G" => run_g(body),
             "M" => run_m(&opts, body),
             "K" => run_k(body),
+            "V" => run_v(body),
             _ => ("skip".into(), String::new()),
         };
         writeln!(out, "{}\t{}\t{}", id, outcome, obs).expect("write");
